@@ -19,7 +19,7 @@ def _is_variant(ex, o, idx):
 def _concrete_enum(ex, o):
     """Agg view of an Option/Result value (forks on a lazy one)"""
     if isinstance(o, LazyEnum):
-        k = ex.choose([(o.d == i, i) for i in range(len(o.adt.variants))], exhaustive=True)
+        k = ex.choose_fd(o.d, [(frozenset([i]), i) for i in range(len(o.adt.variants))], False) if o.d.get_id() not in ex.entangled else ex.choose([(o.d == i, i) for i in range(len(o.adt.variants))], exhaustive=True)
         return Agg(o.adt.name, k, ex.lazy_variant(o, o.adt.variants[k].name))
     return o
 
